@@ -296,13 +296,7 @@ func hasKind(plan pconn.Plan, k byte) bool {
 // the Write calls that were made (valid until the worker's next run).
 func (w *worker) evalWrite(names []string, stream []*pconn.Item, plan pconn.Plan) (*failure, []int) {
 	w.wc.Reset(nil, nil, plan)
-	ctx := bg
-	if hasKind(plan, 'c') {
-		var cancel context.CancelFunc
-		ctx, cancel = context.WithCancel(bg)
-		w.wc.OnCancel = cancel
-		defer cancel()
-	}
+	cancelPlan := hasKind(plan, 'c')
 	tx := lime.NewTCPTransportFromConn(w.wc, nil, false)
 	var S []*pconn.Item
 	var failed []*pconn.Item
@@ -310,6 +304,15 @@ func (w *worker) evalWrite(names []string, stream []*pconn.Item, plan pconn.Plan
 	transientOnly := !hasKind(plan, 'x') && !hasKind(plan, 'c')
 	for i, it := range stream {
 		w0 := w.wc.Writes
+		// every Send has its own context: a cancellation ends that one call, the
+		// following envelopes are sent with a live context again
+		ctx := bg
+		if cancelPlan {
+			c2, cancel := context.WithCancel(bg)
+			ctx = c2
+			w.wc.OnCancel = cancel
+			defer cancel()
+		}
 		err := pconn.Send(ctx, tx, it.Env)
 		w1 := w.wc.Writes
 		nSendsTotal.Add(1)
